@@ -92,7 +92,11 @@ ENTRY = {'coq_dir': 'C12',
                "Start endpoints; C12_start_end_to_end_linked with the carrier hypothesis derived from C04's reader model) but Model.v and Start.v "
                'are not one state machine. In Start.v the 5 s / 10 s timers never fire, dialing is off, and a debug_assert!(false) of the Rust code '
                'is the outcome `stuck` (never reached in any run). NotificationHandle::send_async_notification (the &mut-borrowing wrapper) is '
-               'covered as the same lookup + the modelled sink-level future; try_open/try_close_substream_batch do not affect delivery.',
+               'covered as the same lookup + the modelled sink-level future; try_open/try_close_substream_batch do not affect delivery. '
+               'Partial-write faults of the Substream sink (the transport takes part of a queued frame, answers Pending, and the frame must be '
+               'resumed at that byte, not rewritten) are the subject of C04 and are caught there: the quick tier of C04 visits every split point of '
+               'small frames on poll_flush / poll_ready / send_framed over the scripted carrier and over real yamux (seeded change seeded/C12/e: '
+               './check C04 reports a VIOLATION with a replay); the end-to-end stream of C12 runs a Connection over carriers that take whole frames.',
  'assumptions': ['channel capacities >= 1 (tokio panics on 0)',
                  'a stream is set up again only after both Connection tasks of the previous one have finished; each endpoint joins a stream at most '
                  'once. This restricts the scheduler model (Model.open_stream refuses otherwise) and is NOT guaranteed by the code: the attempt to '
